@@ -27,16 +27,34 @@ fn main() {
             let mut out = BufWriter::new(std::fs::File::create(&args[3]).unwrap());
             let mut mods = hal::Mods::new();
             let seed = env_seed();
+            let mut nev = 0usize;
             for (idx, c0) in cases.iter().enumerate() {
                 let mut c = c0.clone();
                 if c.get("id").is_none() {
                     c["id"] = serde_json::json!(idx + 1);
                 }
-                let ev = hal::run_case(&mut mods, &c, seed);
-                writeln!(out, "{}", serde_json::to_string(&ev).unwrap()).unwrap();
+                // a descriptor with a digit alphabet expands to ceil(alpha^size / n) events
+                let nchunks = match c.get("alpha").and_then(|v| v.as_array()) {
+                    Some(al) => {
+                        let op = c["op"].as_str().unwrap();
+                        let inplace = matches!(op, "normalize_assign" | "lsh_assign" | "rsh_assign");
+                        let sz = if inplace { c["rs"].as_u64().unwrap() } else { c["as"].as_u64().unwrap() } as u32;
+                        let n = c["n"].as_u64().unwrap() as usize;
+                        al.len().pow(sz).div_ceil(n)
+                    }
+                    None => 1,
+                };
+                c["did"] = c["id"].clone();
+                c["nchunks"] = serde_json::json!(nchunks);
+                for chunk in 0..nchunks {
+                    c["chunk"] = serde_json::json!(chunk);
+                    let ev = if c["op"].as_str().unwrap().starts_with("encode_") { hal::run_encode_case(&c, seed) } else { hal::run_case(&mut mods, &c, seed) };
+                    writeln!(out, "{}", serde_json::to_string(&ev).unwrap()).unwrap();
+                    nev += 1;
+                }
             }
             out.flush().unwrap();
-            println!("hal: {} events", cases.len());
+            println!("hal: {} descriptors {} events", cases.len(), nev);
         }
         other => {
             eprintln!("unknown command {other}");
